@@ -25,7 +25,7 @@ ASSUMPTIONS = [
     "a large broadcast is treated as atomic w.r.t. the subscription task, which the scenarios guarantee by broadcasting more than the capacity only while the task is blocked",
     "the several-streams history creates its iterators lazily; schedules do not write while that history read is in progress (the model's OExtend step covers it in the theorems)",
     "the hooks (cfg sierradb_verif, commits a040eba, 0b61203) only observe / pause; with the cfg off the code is unchanged",
-    "liveness (C09_eventual_partial) is a statement about the model only; the monitor checks completeness at the end of schedules that finish with a broadcast and a flush",
+    "liveness (C09_idle_complete, C09_eventual_partial) is a statement about the model only; the monitor checks completeness whenever a schedule ends with the task idle in the live receive",
 ]
 
 # ------------------------------------------------------------------ parsing
@@ -252,10 +252,15 @@ def distribution(pairs):
         d["start_latest"] += sub["frm"][0] == "L"; d["bg_subscriber"] += t[1] == "1"
     return d
 
-LEVEL_TEXT = ("Machine-checked proof (Coq) over ALL executions of the subscription transition system (every interleaving of appends, watermark advances, broadcasts, history batches of any size, "
-              "iterator refreshes, live receives, sends, acknowledgements and lag, for all five matcher kinds, any start position, any window): per partition / per stream the delivered positions are "
-              "consecutive from the start position (so in order, exactly once, no gap), every delivered event was below the watermark when it was sent, and at every send at most `window` records "
-              "are unacknowledged. Tie to the code: schedule replay of the real ClusterActor against the extracted model with exact outputs, plus a direct monitor.")
-LEVEL_NOTE = ("Trusted: Coq kernel, extraction, OCaml driver, Rust harness + hook callbacks, Python monitor. Liveness is proved for the model only (C09_eventual_partial). "
-              "Multi-node delivery, the storage iterators and tokio's channels are modelled, not verified.")
+LEVEL_TEXT = ("Machine-checked proof (Coq, one invariant by induction over operation lists) over ALL executions of the subscription transition system (every interleaving of appends, watermark "
+              "advances, broadcasts, history batches of any size for any pending iterator, iterator refreshes, live receives, sends, acknowledgements and lag, for all five matcher kinds, any start "
+              "position, any window, any channel capacity): per partition / per stream the delivered positions are consecutive from the start position (so in order, exactly once, no gap), every "
+              "delivered event is a log event that was below the watermark when it was sent (C09_order_once_nogap), at every send at most `window` records are unacknowledged (C09_window); "
+              "when the task is idle everything below the broadcast position has been delivered (C09_idle_complete), and from every reachable state a fair continuation (one broadcast per "
+              "partition, acknowledgements, the task's own steps) reaches that idle state with every confirmed matching event delivered (C09_eventual_partial, termination by a measure). "
+              "C09_stream_break_refuted: the stream reader before commit 6d8d4bd skips events. Tie to the code: schedule replay of the real ClusterActor (pause points between history batches, "
+              "exact blocked-state detection from the hook log) against the extracted model with equal outputs, plus a direct monitor (consecutive / start / confirmed / window / completeness).")
+LEVEL_NOTE = ("Trusted: Coq kernel, extraction, OCaml driver, Rust harness + hook callbacks, Python monitor. Liveness is proved on the model only and for the canonical fair schedule, not for "
+              "every fair schedule. Multi-node delivery, the storage iterators and tokio's channels are modelled, not verified. On the real node, events confirmed through the replica path "
+              "(ConfirmTransaction) are broadcast only by the next write on that partition (pending_events is never filled) - a liveness weakness outside the model, reported, not repaired.")
 TECHNIQUE = "Coq proof (invariant by induction over operation lists) of a hand-written transition-system model + K4 schedule replay against the real ClusterActor with cfg-gated pause points"
